@@ -541,4 +541,34 @@ theorem C02_numeric_bytes :
 /-- surrogates and twenty nines are such key codes -/
 example : SurfModel.Payload.isScalar 55296 = false ∧ 4294967295 < clampDec (List.replicate 20 57) := by decide
 
+/-! ## F. modifier words -/
+
+/-- **Modifiers of decoded events are sets of defined flags.** Whatever key or mouse event a decoder body
+    produces, on any data, its modifier word (`KeyMod::bits`) is below 512: no bit outside `KeyMod::ALL`
+    (shift, alt, ctrl, super, hyper, meta, caps lock, num lock, press).  For the kitty keyboard report this is
+    the masking in `KeyMod::from_bits`, for mouse reports the three-bit field plus `PRESS`. -/
+theorem C02_modifiers (k : Family) (d : List Nat) (e : Event) (he : SurfModel.Payload.decode k d = .ok (some e))
+    (m : Nat) (hm : modOf e = some m) : m < 512 :=
+  decode_mod k d e he m hm
+
+/-- the same for every event of the stream, literal keys included (every automaton, every chunking) -/
+theorem C02_modifiers_stream {σ : Type} (A : TAuto σ) (chunks : List (List UInt8)) :
+    ∃ per s, feedAll A.toAuto (init A.toAuto) chunks = .ok (per, s) ∧
+      ∀ it ∈ per.flatten, ∀ e, eventOfItem A it = .ok e → ∀ m, modOf e = some m → m < 512 := by
+  obtain ⟨per, s, h1, _⟩ := SurfProofs.C03.C03_conservation A.toAuto chunks
+  exact ⟨per, s, h1, fun it _ e he m hm => eventOfItem_mod A it e he m hm⟩
+
+/-- `ESC [ code ; modifiers u` on bytes, for a modifiers field of any length and size: the word is
+    `(field - 1) mod 2^32 mod 512` (0 when the field is 0 or 1) -/
+theorem C02_numeric_modifiers (c ms : List Nat) (hc : Digits c) (hms : Digits ms) (h32 : clampDec c ≤ 4294967295)
+    (hs : SurfModel.Payload.isScalar (clampDec c) = true) (hp : ¬ (57344 ≤ clampDec c ∧ clampDec c ≤ 63743))
+    (hn : clampDec c ∉ [27, 13, 9, 127]) :
+    decodeKittyKeyboard ([27, 91] ++ ((c ++ 59 :: ms) ++ [117])) =
+      .ok (some (.key ⟨.char (clampDec c), if clampDec ms > 1 then (clampDec ms - 1) % 4294967296 % 512 else 0⟩)) :=
+  kittyKey_modifiers c ms hc hms h32 hs hp hn
+
+/-- `ESC [ 97 ; 514 u` : shift only (514 - 1 = 0x201, the bit above `PRESS` is dropped) -/
+example : Digits [57, 55] ∧ Digits [53, 49, 52] ∧ clampDec [57, 55] = 97 ∧ (clampDec [53, 49, 52] - 1) % 4294967296 % 512 = 1 := by
+  refine ⟨?_, ?_, by decide, by decide⟩ <;> (intro d hd; simp at hd; omega)
+
 end SurfProofs.C02
